@@ -60,6 +60,8 @@ pub fn gen_base(rng: &mut Rng, cfg: &BaseCfg) -> (J, StdTable, Sel, Shape) {
         // one INT column is declared NOT NULL: lines on which it is NULL are no rows
         let which = if rng.chance(1, 2) { "g" } else { "i" };
         for c in t.spec.cols.iter_mut() { if c.name == which { c.modifier = Modifier::NotNull; } }
+        // ... and sometimes another column has a DEFAULT: a line failing NOT NULL is still no row
+        if rng.chance(1, 2) { for c in t.spec.cols.iter_mut() { if c.name == "k" { c.modifier = Modifier::Default(E::Str("dflt".into())); } } }
     }
     let dc = DataCfg::random(rng, t.schema.cols.len(), false);
     let n = cfg.min_lines + rng.below(cfg.max_lines - cfg.min_lines + 1);
